@@ -16,6 +16,11 @@ def lattice(inst, K: int) -> List[float]:
     return [round(base + i * step, 9) for i in range(K)]
 
 
+def zero_inst(inst):
+    """An instantiation whose lattice contains 0.0 and a negative temperature (falsy-zero and sign mistakes need them)."""
+    return (-inst[1], inst[1], inst[2], inst[3])
+
+
 def stream_types(inst, K: int, cps: Sequence[float] = (1, 2), dts: Sequence[float] = (0, 1),
                  iso: bool = True, iso_duty_units: Sequence[float] = (1,)) -> List[tuple]:
     """All stream types over a K-point lattice, simplest first.
